@@ -36,7 +36,7 @@ C0(cf) == [role |-> cf.role, pmce |-> cf.pmce, pool |-> cf.pool, wbuf |-> cf.wbu
            wcomp |-> TRUE, level |-> 1, dl |-> "zero", armed |-> "none",
            err |-> "none",           \* "none" | "closesent" | "fatal"
            open |-> FALSE, dead |-> FALSE, mtype |-> 0, mid |-> -1,
-           wrote |-> 0, sent |-> 0, started |-> FALSE, mcomp |-> FALSE,
+           wrote |-> 0, sent |-> 0, started |-> FALSE, mcomp |-> FALSE, mlevel |-> 1,
            wst |-> "idle", held |-> -1, nextkey |-> 0, wild |-> FALSE,
            done |-> << >>]           \* messages completely written: << [m, type, n] >>
 
@@ -64,6 +64,11 @@ AfterFrame(st, f) ==
   [st EXCEPT !.wst = WFStep(st.wst, f, st.role, st.pmce),
              !.err = IF f.op = OpClose THEN "closesent" ELSE st.err]
 
+(* C15/C19: when the compressed bytes can be attributed to compression levels (they equal what   *)
+(* a conformant deflater emits at those levels for one write of the whole message), the level   *)
+(* in force on the connection must be among them.                                               *)
+LevelOK(lv, f) == f.zlv = << >> \/ lv \in {f.zlv[i] : i \in DOMAIN f.zlv}
+
 (* a frame of the connection's own current message *)
 MsgFrame(st, f) ==
   IF ~st.open \/ st.dead THEN Bad
@@ -81,7 +86,7 @@ MsgFrame(st, f) ==
            r1OK  == f.r1 = (first /\ st.mcomp)
            payOK == IF st.mcomp THEN TRUE
                     ELSE f.m = st.mid /\ f.off = st.sent /\ st.sent + f.len <= st.wrote
-           finOK == f.fin => (IF st.mcomp THEN f.zm = st.mid /\ f.zlen = st.wrote
+           finOK == f.fin => (IF st.mcomp THEN f.zm = st.mid /\ f.zlen = st.wrote /\ LevelOK(st.mlevel, f)   \* the level in force when the message was started
                               ELSE st.sent + f.len = st.wrote)
        IN IF opOK /\ r1OK /\ payOK /\ finOK
           THEN [AfterFrame(st, f) EXCEPT !.nextkey = IF f.mk THEN f.key + 4 ELSE st.nextkey,
@@ -108,7 +113,7 @@ PmFrame(st, f, ctx, pst) ==
      ELSE IF /\ f.op = (IF pst.started THEN OpCont ELSE pm.type)
              /\ f.r1 = (~pst.started /\ z)
              /\ (z \/ (f.m = 1000 + ctx.pm /\ f.off = pst.sent /\ pst.sent + f.len <= pm.n))
-             /\ f.fin => (IF z THEN f.zm = 1000 + ctx.pm /\ f.zlen = pm.n ELSE pst.sent + f.len = pm.n)
+             /\ f.fin => (IF z THEN f.zm = 1000 + ctx.pm /\ f.zlen = pm.n /\ LevelOK(st.level, f) ELSE pst.sent + f.len = pm.n)
           THEN AfterFrame(st, f) ELSE Bad
 
 (* The fold proper.  acc = [st, ctx, pst, stop] ; stop: a fault happened, only PUT may follow *)
@@ -198,7 +203,7 @@ NWStep(pre, type, m, e, tx) ==
      ELSE IF ~ValidType(type) THEN (IF ~IsNil(e) /\ st.held = -1 THEN st ELSE Bad)
      ELSE IF IsNil(e) /\ (st.pool => st.held # -1) /\ (~st.pool => st.held = -1)
           THEN [st EXCEPT !.open = TRUE, !.dead = FALSE, !.mtype = type, !.mid = m, !.wrote = 0, !.sent = 0,
-                          !.started = FALSE, !.mcomp = Compresses(st, type)]
+                          !.started = FALSE, !.mcomp = Compresses(st, type), !.mlevel = st.level]
           ELSE Bad
 
 (***************************************************************************)
@@ -282,7 +287,7 @@ WMStep(pre, type, n, m, e, tx) ==
                LET a0 == Fold(Acc(s1c, [Ctx("none") EXCEPT !.mayStart = TRUE]), tx2) IN
                (IF ~IsBad(a0.st) /\ a0.st.held = -1 THEN a0.st ELSE Bad)
           ELSE LET s2 == [s1c EXCEPT !.open = TRUE, !.dead = FALSE, !.mtype = type, !.mid = m, !.wrote = n, !.sent = 0,
-                                     !.started = FALSE, !.mcomp = Compresses(s1c, type)]
+                                     !.started = FALSE, !.mcomp = Compresses(s1c, type), !.mlevel = s1c.level]
                    a2 == Fold(Acc(s2, [Ctx("msg") EXCEPT !.mayStart = TRUE]), tx2)
                    s3 == a2.st
                IN IF IsBad(s3) THEN Bad
